@@ -156,9 +156,16 @@ func main() {
 	nontriv := map[uint64]bool{}
 	start := time.Now()
 	var hashLines []string
-	for idx := *from; idx < *to; idx += *stride {
+	for k := *from; k < *to; k += *stride {
 		if *budget > 0 && time.Since(start).Seconds() > *budget {
 			break
+		}
+		// the workers' positions rotate from block to block, so that profiles
+		// chosen by "index mod m" are spread over all workers (load, and the
+		// per-worker cap on reported violations)
+		idx := k
+		if block := k / *stride; *stride > 1 && (block+1)**stride <= *to {
+			idx = block**stride + (k%*stride+block)%*stride
 		}
 		rs := runSeed(*seed, idx)
 		rng := rand.New(rand.NewSource(rs))
